@@ -25,6 +25,8 @@ def run(ctx):
     r.floor("C04.geometry.groups", 80)
     for kc in generic_classes(ctx, enzymes_for_tier(ctx)):
         geometry(ctx, kc, "C04.generic-geometry")
+    from ..rules_misc import k21_match_overrides
+    ctx.guard(k21_match_overrides, ctx, "C04")
     n_screen = 0
     for kc in inv:
         if kc.role != "module":
@@ -51,8 +53,6 @@ def run(ctx):
     run_kernels(ctx, ["K7", "K8", "K9", "K10", "K1", "K2", "K3"], "C04")
     from ..rules_misc import k19_match
     ctx.guard(k19_match, ctx, "C04")
-    from ..rules_misc import k21_match_overrides
-    ctx.guard(k21_match_overrides, ctx, "C04")
     from ..rules_ast import match_slot_rule
     ctx.guard(match_slot_rule, ctx, "C04.match-slot")
     # every class must compile the pattern of its own structure(): what the accepted language rests on
